@@ -1,4 +1,5 @@
 import OH.Model.Iter
+import OH.Model.Tz
 /-
 Model of the Python binding `opening-hours-py` (property C12):
   src/lib.rs               `validate`, `PyOpeningHours::{new, normalize, state, is_open, is_closed,
@@ -15,10 +16,22 @@ and of the generic layer of the core the binding goes through
 
 Everything *below* that layer is a parameter (`Core`): the parser, `Display`, `normalize`, the
 country table, the coordinate look-ups, chrono-tz (`naive_local`, `Localize::datetime`) and the
-naive-level evaluator `iter_range_naive`.  They are the subject of other properties (C01–C11); for
-C12 the question is only what the binding does *with* them.  A `Core` can be instantiated with the
-evaluator / tz models of `OH.Model`, or (as the correspondence driver does) with the values the real
-core returned.
+naive-level evaluator `iter_range_naive` (a lazily produced stream, `NStream`).  They are the subject
+of other properties (C01–C11); for C12 the question is only what the binding does *with* them.  A
+`Core` can be instantiated with the evaluator / tz models of `OH.Model`, or (as the correspondence
+driver does) with the values the real core returned.
+
+The generic `iter_range` is the one of /repo dfe1ade: the naive stream is FILTERED with the locale
+(`locale.naive(locale.datetime(range.start)) < range.end`: a local span the clock skips entirely is
+dropped), same-kind neighbours that only a dropped span separated are MERGED, and only then the
+bounds are mapped with `locale.datetime` (`keepRange`, `filterRanges`, `OH.Model.Tz.mergeRanges`,
+`mapRanges`; lazily for the first item: `nextKept`, `absorb`, `firstMerged`).  The binding does not
+re-implement any of this: `PyLocation` is one more `Localize` instance the generic code is run with,
+so a context with a zone gets the LOCALIZED stream (not "the wall-clock stream with the zone
+attached"): a naive `02:30` inside the Paris gap of 2024-03-31 on `02:00-03:00` answers the NEXT
+day's 02:00.  The merge functions on lists are those of `OH.Model.Tz` (C09's model of the same code
+for `TzLocation` over a transition table); filter and map are restated here over an abstract
+`Localize` record.
 
 Not modelled (exercised by the CPython runs only): PyO3's conversions — `datetime` ↔
 `NaiveDateTime` / `DateTime<Tz>` (`fold`, gaps, `tzinfo` without `key`), `ZoneInfo` ↔ `chrono_tz::Tz`,
@@ -91,6 +104,35 @@ inductive EvLoc (Z : Type) where
   | tzLocation (loc : TzLoc Z)
   deriving DecidableEq, Repr
 
+/-- The items a lazy `Iterator<Item = DateTimeRange>` of the core yields when it is pulled: finitely
+many (the iteration stops at `DATE_END` at the latest — C04), then its normal end (`done`) or a
+panic at the next `next()` (`panic`).  What is AFTER the point up to which a consumer pulls does not
+influence that consumer. -/
+inductive NStream where
+  | done
+  | panic (site : String)
+  | cons (iv : Interval) (rest : NStream)
+
+/-- `.collect()`: a panic anywhere is a panic of the whole (the items before it are lost) -/
+def NStream.collect : NStream → M (List Interval)
+  | .done => .ok []
+  | .panic p => .error p
+  | .cons iv rest =>
+    match rest.collect with
+    | .error p => .error p
+    | .ok l => .ok (iv :: l)
+
+/-- `.next()` of the fresh iterator -/
+def NStream.first : NStream → M (Option Interval)
+  | .done => .ok none
+  | .panic p => .error p
+  | .cons iv _ => .ok (some iv)
+
+/-- a complete stream with these items -/
+def NStream.ofList : List Interval → NStream
+  | [] => .done
+  | iv :: rest => .cons iv (ofList rest)
+
 structure Core where
   /-- `Arc<OpeningHoursExpression>` -/
   Expr : Type
@@ -121,12 +163,19 @@ structure Core where
   /-- `Localize::datetime` of `TzLocation::new(tz)`: the absolute instant; the loop's `expect` is
   the panic site (C09 proves it unreachable up to `DATE_END`) -/
   tzDatetime : Zone → Int → M Int
-  /-- `iter_range_naive(from, to)` collected (it clamps both bounds to `DATE_END` itself) -/
-  iterNaive : Expr → Hol → EvLoc Zone → Int → Int → M (List Interval)
-  /-- `iter_range_naive(from, to).next()` -/
-  firstNaive : Expr → Hol → EvLoc Zone → Int → Int → M (Option Interval)
+  /-- `iter_range_naive(from, to)` (it clamps both bounds to `DATE_END` itself), as the lazy stream
+  it is: the generic code pulls it item by item -/
+  streamNaive : Expr → Hol → EvLoc Zone → Int → Int → NStream
 
 variable (C : Core)
+
+/-- `iter_range_naive(from, to)` collected -/
+def Core.iterNaive (e : C.Expr) (h : C.Hol) (ev : EvLoc C.Zone) (a b : Int) : M (List Interval) :=
+  (C.streamNaive e h ev a b).collect
+
+/-- `iter_range_naive(from, to).next()` -/
+def Core.firstNaive (e : C.Expr) (h : C.Hol) (ev : EvLoc C.Zone) (a b : Int) : M (Option Interval) :=
+  (C.streamNaive e h ev a b).first
 
 /-! ## `DateTimeMaybeAware` -/
 
@@ -195,7 +244,7 @@ structure Range (DT : Type) where
   kind : Kind
   comments : List String
 
-/-- `locale.datetime(dtr.range.start)..locale.datetime(dtr.range.end)` -/
+/-- `locale.datetime(curr.range.start)..locale.datetime(curr.range.end)` -/
 def mapRange {DT : Type} (L : Localize C DT) (iv : Interval) : M (Range DT) :=
   match L.datetime iv.start with
   | .error p => .error p
@@ -214,12 +263,53 @@ def mapRanges {DT : Type} (L : Localize C DT) : List Interval → M (List (Range
       | .error p => .error p
       | .ok xs => .ok (x :: xs)
 
+/-! ### `iter_range`: filter → merge → map (/repo dfe1ade)
+```
+let mut naive_ranges = self.iter_range_naive(naive_from, naive_to)
+    .filter(move |dtr| locale.naive(locale.datetime(dtr.range.start)) < dtr.range.end)
+    .peekable();
+std::iter::from_fn(move || {
+    let mut curr = naive_ranges.next()?;
+    while let Some(next) = naive_ranges.next_if(|next| next.kind == curr.kind && curr.range.end <= next.range.start) {
+        curr.range.end = next.range.end;
+    }
+    Some(DateTimeRange::new_with_sorted_comments(
+        locale.datetime(curr.range.start)..locale.datetime(curr.range.end), curr.kind, curr.comments))
+})
+```
+For `NoLocation` / `PyLocation::Naive` (`naive ∘ datetime` = identity) the filter keeps every
+non-empty range; for a zone it drops the local spans that a forward clock change skips entirely. -/
+
+/-- the `filter` closure: `locale.naive(locale.datetime(range.start)) < range.end` -/
+def keepRange {DT : Type} (L : Localize C DT) (iv : Interval) : M Bool :=
+  match L.datetime iv.start with
+  | .error p => .error p
+  | .ok d => .ok (decide (L.naive d < iv.stop))
+
+/-- `.filter(…)` on the collected naive stream -/
+def filterRanges {DT : Type} (L : Localize C DT) : List Interval → M (List Interval)
+  | [] => .ok []
+  | iv :: rest =>
+    match keepRange C L iv with
+    | .error p => .error p
+    | .ok k =>
+      match filterRanges L rest with
+      | .error p => .error p
+      | .ok xs => .ok (if k then iv :: xs else xs)
+
+/-- filter → merge (`OH.Model.Tz.mergeRanges`: `next.kind == curr.kind && curr.end <= next.start`,
+the merged range keeps the comments of the first) → map, on a collected naive stream -/
+def localizeRanges {DT : Type} (L : Localize C DT) (l : List Interval) : M (List (Range DT)) :=
+  match filterRanges C L l with
+  | .error p => .error p
+  | .ok fl => mapRanges C L (Tz.mergeRanges fl)
+
 /-- `iter_range(from, to)` collected.  (The Rust value is a lazy iterator: an error of the model
 stands for a panic at some item; the items before it are not represented.) -/
 def iterRange {DT : Type} (L : Localize C DT) (e : C.Expr) (h : C.Hol) (frm to : DT) : M (List (Range DT)) :=
   match C.iterNaive e h L.ev (min instEnd (L.naive frm)) (min instEnd (L.naive to)) with
   | .error p => .error p
-  | .ok l => mapRanges C L l
+  | .ok l => localizeRanges C L l
 
 /-- `iter_from(from)` = `iter_range(from, locale.datetime(DATE_END))` -/
 def iterFrom {DT : Type} (L : Localize C DT) (e : C.Expr) (h : C.Hol) (frm : DT) : M (List (Range DT)) :=
@@ -227,9 +317,47 @@ def iterFrom {DT : Type} (L : Localize C DT) (e : C.Expr) (h : C.Hol) (frm : DT)
   | .error p => .error p
   | .ok stop => iterRange C L e h frm stop
 
+/-! the same pipeline pulled lazily for its first item only (`iter_from(t).next()` in `next_change`):
+the naive stream is advanced just as far as the filter and the `next_if` loop need -/
+
+/-- `naive_ranges.next()` / what `peek` computes: the next range that passes the filter, and the
+stream after it -/
+def nextKept {DT : Type} (L : Localize C DT) : NStream → M (Option (Interval × NStream))
+  | .done => .ok none
+  | .panic p => .error p
+  | .cons iv rest =>
+    match keepRange C L iv with
+    | .error p => .error p
+    | .ok true => .ok (some (iv, rest))
+    | .ok false => nextKept L rest
+
+/-- the `while let Some(next) = naive_ranges.next_if(…)` loop, from the stream after `curr`.
+(`next_if` peeks: the range that ends the loop has been pulled and filtered.) -/
+def absorb {DT : Type} (L : Localize C DT) (curr : Interval) : NStream → M Interval
+  | .done => .ok curr
+  | .panic p => .error p
+  | .cons iv rest =>
+    match keepRange C L iv with
+    | .error p => .error p
+    | .ok false => absorb L curr rest
+    | .ok true =>
+      if Tz.mergeable curr iv then absorb L ⟨curr.start, iv.stop, curr.kind, curr.comments⟩ rest
+      else .ok curr
+
+/-- first item of the filtered and merged stream, bounds not yet mapped:
+`let mut curr = naive_ranges.next()?; while let Some(next) = … { curr.range.end = next.range.end }` -/
+def firstMerged {DT : Type} (L : Localize C DT) (s : NStream) : M (Option Interval) :=
+  match nextKept C L s with
+  | .error p => .error p
+  | .ok none => .ok none
+  | .ok (some (curr, rest)) =>
+    match absorb C L curr rest with
+    | .error p => .error p
+    | .ok c => .ok (some c)
+
 /-- `iter_range(from, to).next()` -/
 def firstOfRange {DT : Type} (L : Localize C DT) (e : C.Expr) (h : C.Hol) (frm to : DT) : M (Option (Range DT)) :=
-  match C.firstNaive e h L.ev (min instEnd (L.naive frm)) (min instEnd (L.naive to)) with
+  match firstMerged C L (C.streamNaive e h L.ev (min instEnd (L.naive frm)) (min instEnd (L.naive to))) with
   | .error p => .error p
   | .ok none => .ok none
   | .ok (some iv) =>
@@ -248,7 +376,8 @@ def nextChange {DT : Type} (L : Localize C DT) (e : C.Expr) (h : C.Hol) (t : DT)
     | .ok (some r) => if L.naive r.stop ≥ instEnd then .ok none else .ok (some r.stop)
 
 /-- `state`: closed from `DATE_END` on, else the kind of the first item of
-`iter_range_naive(naive, naive + 1 minute)` (closed if there is none) -/
+`iter_range_naive(naive, naive + 1 minute)` (closed if there is none) — purely on the wall clock: no
+filter, no `datetime` -/
 def state {DT : Type} (L : Localize C DT) (e : C.Expr) (h : C.Hol) (t : DT) : M Kind :=
   if L.naive t ≥ instEnd then .ok .closed
   else
@@ -272,8 +401,10 @@ def tzLocation (loc : TzLoc C.Zone) : Localize C (Aware C.Zone) where
   ev := .tzLocation loc
 
 /-- the same place read on its wall clock: `naive`/`datetime` of `NoLocation`, `event_time` of the
-`TzLocation`.  Not a type of the core; it is what a naive Python input means for an aware context
-(the "equivalent context" of the property for that combination). -/
+`TzLocation`.  Not a type of the core.  `state` of a context with a zone is `state` of this locale at
+the wall-clock time (`state` never calls `datetime`); `next_change` / `intervals` are NOT those of
+this locale since /repo dfe1ade: the generic `iter_range` consults `naive ∘ datetime`, which is the
+identity here and is not for `PyLocation::Aware`. -/
 def wallClock (loc : TzLoc C.Zone) : Localize C Int := ⟨fun n => n, fun n => .ok n, .tzLocation loc⟩
 
 /-! ## `PyLocation` -/
